@@ -127,6 +127,15 @@ fn main() {
             m1.refresh().unwrap();
             println!("final {} {}", digest(&m1), digest(&m2));
         }
+        "selfmeld" => {
+            // probe only (not part of any check): melding a replica into itself
+            let m = mk();
+            m.update(doc(&["e0".to_string()], &[], 0)).unwrap();
+            m.commit(None).unwrap();
+            println!("melding into itself...");
+            let r = m.meld(&m);
+            println!("returned {:?}", r.map(|v| v.len()));
+        }
         _ => std::process::exit(2),
     }
 }
